@@ -177,7 +177,10 @@ Arguments st_map : simpl never.
 
 (* ---------------------------------------------------------------- the invariant *)
 
-Definition PD (st : state) : Prop := forall w, In w (s_pending st) -> durable (s_store st) w.
+(* [safe]: durable, or legitimately removed by a TruncateUpTo (an entry of a deleted file) *)
+Definition safe (st : state) (w : N) : Prop := In w (s_released st) \/ durable (s_store st) w.
+
+Definition PD (st : state) : Prop := forall w, In w (s_pending st) -> safe st w.
 
 Definition SeqBound (st : state) : Prop := forall p, In p (s_store st) -> fst p <= s_seq st.
 
@@ -187,60 +190,73 @@ Definition Clean (st : state) : Prop :=
   forall wr, s_cur st = Some wr -> s_force st = false ->
   exists f ws, In (w_seq wr, f) (s_store st) /\ f_items f = IHdr :: map IEnt ws.
 
-(* Every entry acked Ok lies below the synced count of a readable file; every entry with a
-   pending ack is either already there or readable in the current writer's file (so the
-   next successful fsync of the current writer puts it there); sequence numbers of
-   existing files never exceed current_sequence (so create never replaces a file). *)
+(* Every entry acked Ok lies below the synced count of a readable file (or was in a file
+   that a truncation deleted); every entry with a pending ack is either already there or
+   readable in the current writer's file (so the next successful fsync of the current
+   writer puts it there); sequence numbers of existing files never exceed
+   current_sequence (so create never replaces a file). *)
 Definition Inv (st : state) : Prop :=
-  (forall w, In w (s_ok st) -> durable (s_store st) w) /\
+  (forall w, In w (s_ok st) -> safe st w) /\
   (forall w, In w (s_pending st) ->
-     durable (s_store st) w \/ exists wr, s_cur st = Some wr /\ live_at (s_store st) (w_seq wr) w) /\
+     safe st w \/ exists wr, s_cur st = Some wr /\ live_at (s_store st) (w_seq wr) w) /\
   SeqBound st /\ Clean st.
 
+#[local] Hint Extern 1 (s_released _ = s_released _) =>
+  (repeat match goal with x := _ |- _ => subst x end); cbn in *; congruence : core.
+
+Lemma safe_transfer : forall st st' w,
+  (forall w, durable (s_store st) w -> durable (s_store st') w) ->
+  s_released st' = s_released st -> safe st w -> safe st' w.
+Proof. intros st st' w Hd Hr [R|D]; [left; rewrite Hr; exact R|right; auto]. Qed.
+
 Lemma Inv_transfer_seq : forall st st',
+  s_released st' = s_released st ->
   (forall w, durable (s_store st) w -> durable (s_store st') w) ->
   (forall s w, live_at (s_store st) s w -> live_at (s_store st') s w) ->
   (forall wr, s_cur st = Some wr -> exists wr', s_cur st' = Some wr' /\ w_seq wr' = w_seq wr) ->
   s_ok st' = s_ok st -> s_pending st' = s_pending st ->
   SeqBound st' -> Clean st' -> Inv st -> Inv st'.
 Proof.
-  intros st st' Hd Hl Hc Ho Hp Hs Hcl [I1 [I2 [I3 I4]]]. split; [|split; [|split]]; auto.
-  - intros w H. rewrite Ho in H. auto.
-  - intros w H. rewrite Hp in H. destruct (I2 w H) as [D|[wr [C L]]]; [left; auto|].
+  intros st st' Hr Hd Hl Hc Ho Hp Hs Hcl [I1 [I2 [I3 I4]]]. split; [|split; [|split]]; auto.
+  - intros w H. rewrite Ho in H. eapply safe_transfer; eauto.
+  - intros w H. rewrite Hp in H. destruct (I2 w H) as [D|[wr [C L]]]; [left; eapply safe_transfer; eauto|].
     right. destruct (Hc wr C) as [wr' [C' S']]. exists wr'. rewrite S'. auto.
 Qed.
 
 Lemma Inv_transfer : forall st st',
+  s_released st' = s_released st ->
   (forall w, durable (s_store st) w -> durable (s_store st') w) ->
   (forall s w, live_at (s_store st) s w -> live_at (s_store st') s w) ->
   s_cur st' = s_cur st -> s_ok st' = s_ok st -> s_pending st' = s_pending st ->
   SeqBound st' -> Clean st' -> Inv st -> Inv st'.
 Proof.
-  intros st st' Hd Hl Hc. apply Inv_transfer_seq; auto.
+  intros st st' Hr Hd Hl Hc. apply Inv_transfer_seq; auto.
   intros wr C. exists wr. rewrite Hc. auto.
 Qed.
 
 Lemma Inv_PD_transfer : forall st st',
+  s_released st' = s_released st ->
   (forall w, durable (s_store st) w -> durable (s_store st') w) ->
   s_ok st' = s_ok st -> s_pending st' = s_pending st ->
   SeqBound st' -> Clean st' -> Inv st -> PD st -> Inv st' /\ PD st'.
 Proof.
-  intros st st' Hd Ho Hp Hs Hcl [I1 [I2 [I3 I4]]] P.
-  assert (P' : PD st') by (intros w H; rewrite Hp in H; auto).
+  intros st st' Hr Hd Ho Hp Hs Hcl [I1 [I2 [I3 I4]]] P.
+  assert (P' : PD st') by (intros w H; rewrite Hp in H; eapply safe_transfer; eauto).
   split; [|exact P']. split; [|split; [|split]]; auto.
-  intros w H. rewrite Ho in H. auto.
+  intros w H. rewrite Ho in H. eapply safe_transfer; eauto.
 Qed.
 
 Lemma Inv_PD_intro : forall st st',
+  s_released st' = s_released st ->
   (forall w, durable (s_store st) w -> durable (s_store st') w) ->
   s_ok st' = s_ok st -> s_pending st' = s_pending st ->
   SeqBound st' -> Clean st' -> Inv st ->
-  (forall w, In w (s_pending st) -> durable (s_store st') w) -> Inv st' /\ PD st'.
+  (forall w, In w (s_pending st) -> safe st' w) -> Inv st' /\ PD st'.
 Proof.
-  intros st st' Hd Ho Hp Hs Hcl [I1 [I2 [I3 I4]]] P.
+  intros st st' Hr Hd Ho Hp Hs Hcl [I1 [I2 [I3 I4]]] P.
   assert (P' : PD st') by (intros w H; rewrite Hp in H; auto).
   split; [|exact P']. split; [|split; [|split]]; auto.
-  intros w H. rewrite Ho in H. auto.
+  intros w H. rewrite Ho in H. eapply safe_transfer; eauto.
 Qed.
 
 Lemma Clean_none : forall st, s_cur st = None -> Clean st.
@@ -248,7 +264,8 @@ Proof. intros st H wr C. rewrite H in C. discriminate C. Qed.
 
 Lemma do_io_same : forall st c o st', do_io st c = Some (o, st') ->
   s_store st' = s_store st /\ s_cur st' = s_cur st /\ s_seq st' = s_seq st /\
-  s_pending st' = s_pending st /\ s_ok st' = s_ok st /\ s_force st' = s_force st /\ s_halt st' = s_halt st.
+  s_pending st' = s_pending st /\ s_ok st' = s_ok st /\ s_force st' = s_force st /\ s_halt st' = s_halt st /\
+  s_released st' = s_released st.
 Proof.
   intros st c o st' H. unfold do_io in H. destruct (s_io st); [discriminate|].
   inversion H; subst; cbn. repeat split.
@@ -257,7 +274,8 @@ Qed.
 Ltac io_same H :=
   let a := fresh "Est" in let b := fresh "Ecur" in let c := fresh "Eseq" in
   let d := fresh "Epen" in let e := fresh "Eok" in let f := fresh "Efo" in let g := fresh "Eha" in
-  destruct (do_io_same _ _ _ _ H) as [a [b [c [d [e [f g]]]]]].
+  let h := fresh "Erel" in
+  destruct (do_io_same _ _ _ _ H) as [a [b [c [d [e [f [g h]]]]]]].
 
 Ltac fin A B :=
   split; [exact A|split; [exact B|split; [cbn; congruence|split; [cbn; congruence|
@@ -343,12 +361,13 @@ Qed.
 (* After a successful fsync of the current writer every pending entry is durable. *)
 Lemma sync_cur_PD : forall st wr x,
   Inv st -> s_cur st = Some wr -> x = st_map (s_store st) (w_seq wr) f_sync ->
-  forall w, In w (s_pending st) -> durable x w.
+  forall w, In w (s_pending st) -> In w (s_released st) \/ durable x w.
 Proof.
   intros st wr x [_ [I2 _]] C -> w H.
-  destruct (I2 w H) as [D|[wr' [C' L]]].
-  - apply durable_st_map; auto using ext_sync.
-  - rewrite C in C'. inversion C'; subst wr'. apply sync_makes_durable; exact L.
+  destruct (I2 w H) as [[R|D]|[wr' [C' L]]].
+  - left; exact R.
+  - right. apply durable_st_map; auto using ext_sync.
+  - right. rewrite C in C'. inversion C'; subst wr'. apply sync_makes_durable; exact L.
 Qed.
 
 Lemma Clean_st_map : forall st st' s g,
@@ -385,7 +404,7 @@ Proof.
         - intros p Hp. cbn in Hp. rewrite Est in Hp. apply st_map_fst in Hp. destruct Hp as [q [Hq <-]].
           cbn. rewrite Eseq. apply I; exact Hq.
         - apply (Clean_st_map st _ (w_seq wr) f_sync); cbn; auto; try congruence. apply I.
-        - intros w Hw. rewrite Est. apply (sync_cur_PD st wr); auto. }
+        - intros w Hw. unfold safe; cbn. rewrite Erel, Est. apply (sync_cur_PD st wr); auto. }
       destruct I2 as [I2 P2].
       destruct (rotate_open_inv _ _ _ H I2 P2) as [A [B [Hp [Ho R]]]].
       split; [exact A|]. split; [rewrite Hp; cbn; exact Epen|]. split; [rewrite Ho; cbn; exact Eok|exact R].
@@ -488,7 +507,7 @@ Proof.
   destruct r.
   - destruct (R eq_refl) as [wr [C L]]. destruct I1 as [J1 [J2 [J3 J4]]].
     split; [|split; [|split]]; cbn; auto.
-    intros x Hx. apply in_app_or in Hx. destruct Hx as [Hx|[<-|[]]]; [auto|].
+    intros x Hx. apply in_app_or in Hx. destruct Hx as [Hx|[<-|[]]]; [exact (J2 x Hx)|].
     right. exists wr. auto.
   - apply Inv_ack_false; exact I1.
   - exact I1.
@@ -498,12 +517,12 @@ Qed.
 Lemma fold_ack_props : forall ok l st,
   let st' := fold_left (fun a w => ack a w ok) l st in
   s_store st' = s_store st /\ s_cur st' = s_cur st /\ s_seq st' = s_seq st /\
-  s_force st' = s_force st /\ s_halt st' = s_halt st /\
+  s_force st' = s_force st /\ s_halt st' = s_halt st /\ s_released st' = s_released st /\
   (forall w, In w (s_ok st') -> In w (s_ok st) \/ (ok = true /\ In w l)).
 Proof.
   intros ok l; induction l as [|a l IH]; intros st; cbn.
   - repeat split; auto.
-  - destruct (IH (ack st a ok)) as [H1 [H2 [H3 [H4 [H5 H6]]]]]. cbn in *.
+  - destruct (IH (ack st a ok)) as [H1 [H2 [H3 [H4 [H5 [H7 H6]]]]]]. cbn in *.
     repeat split; auto.
     intros w Hw. destruct (H6 w Hw) as [H|[H H']]; [|right; auto].
     destruct ok; cbn in H; [|left; exact H].
@@ -514,10 +533,13 @@ Lemma resolve_all_inv : forall st ok,
   Inv st -> (ok = true -> PD st) -> Inv (resolve_all st ok).
 Proof.
   intros st ok [I1 [I2 [I3 I4]]] P. unfold resolve_all.
-  destruct (fold_ack_props ok (s_pending st) st) as [H1 [H2 [H3 [H4 [H5 H6]]]]].
+  destruct (fold_ack_props ok (s_pending st) st) as [H1 [H2 [H3 [H4 [H5 [H7 H6]]]]]].
   set (st' := fold_left (fun a w => ack a w ok) (s_pending st) st) in *.
+  assert (S : forall w, safe st w -> safe (State (s_store st') (s_cur st') (s_seq st') (s_force st') [] 0
+        (s_ok st') (s_err st') (s_log st') (s_io st') (s_halt st') (s_over st') (s_panic st') (s_released st')) w).
+  { intros w [R|D]; [left|right]; cbn; [rewrite H7|rewrite H1]; auto. }
   split; [|split; [|split]]; cbn.
-  - intros w Hw. rewrite H1. destruct (H6 w Hw) as [H|[H H']]; [auto|]. apply (P H); exact H'.
+  - intros w Hw. apply S. destruct (H6 w Hw) as [H|[H H']]; [auto|]. apply (P H); exact H'.
   - intros w [].
   - intros p Hp. cbn in Hp |- *. rewrite H1 in Hp. rewrite H3. auto.
   - intros wr C F. cbn in C, F |- *. rewrite H2 in C. rewrite H4 in F. rewrite H1. auto.
@@ -537,7 +559,7 @@ Proof.
         - intros p Hp. cbn in Hp. rewrite Est in Hp. apply st_map_fst in Hp. destruct Hp as [q [Hq <-]].
           cbn. rewrite Eseq. apply I; exact Hq.
         - apply (Clean_st_map st _ (w_seq wr) f_sync); cbn; auto; try congruence. apply I.
-        - intros w Hw. rewrite Est. apply (sync_cur_PD st wr); auto. }
+        - intros w Hw. unfold safe; cbn. rewrite Erel, Est. apply (sync_cur_PD st wr); auto. }
       apply resolve_all_inv; [apply I2|intros _; apply I2].
     + apply resolve_all_inv; [|intro X; discriminate X].
       apply (Inv_transfer st); auto; try congruence.
@@ -555,10 +577,87 @@ Proof.
   apply (Inv_transfer (flush st)); cbn; auto; apply F.
 Qed.
 
+(* ---------------------------------------------------------------- truncation *)
+
+Lemma In_files_at : forall st s f, In f (files_at st s) <-> In (s, f) st.
+Proof.
+  intros st s f. unfold files_at. rewrite in_map_iff. split.
+  - intros [[a b] [E H]]. cbn in E; subst b. apply filter_In in H. destruct H as [H1 H2].
+    cbn in H2. apply N.eqb_eq in H2. subst a. exact H1.
+  - intros H. exists (s, f). split; [reflexivity|]. apply filter_In. split; [exact H|].
+    cbn. apply N.eqb_refl.
+Qed.
+
+Lemma In_entries_at : forall st s w,
+  In w (entries_at st s) <-> exists f, In (s, f) st /\ In w (read_file (f_items f)).
+Proof.
+  intros st s w. unfold entries_at. rewrite in_flat_map. split.
+  - intros [f [H1 H2]]. exists f. split; [apply In_files_at; exact H1|exact H2].
+  - intros [f [H1 H2]]. exists f. split; [apply In_files_at; exact H1|exact H2].
+Qed.
+
+Lemma In_st_remove : forall st s p, In p (st_remove st s) <-> In p st /\ fst p <> s.
+Proof.
+  intros st s p. unfold st_remove. rewrite filter_In. split; intros [H1 H2]; split; auto.
+  - apply negb_true_iff in H2. apply N.eqb_neq; exact H2.
+  - apply negb_true_iff. apply N.eqb_neq; exact H2.
+Qed.
+
+Lemma safe_delete : forall st s w, safe st w -> safe (delete_file st s) w.
+Proof.
+  intros st s w [R|D]; [left; cbn; apply in_or_app; right; exact R|].
+  apply durable_iff in D. destruct D as [[a f] [H1 H2]]. cbn in H2.
+  destruct (N.eq_dec a s) as [->|Ne].
+  - left. cbn. apply in_or_app; left. apply In_entries_at. exists f. split; [exact H1|].
+    apply read_file_firstn in H2; exact H2.
+  - right. cbn. apply durable_iff. exists (a, f). split; [apply In_st_remove; auto|exact H2].
+Qed.
+
+Lemma delete_file_inv : forall st s,
+  (forall wr, s_cur st = Some wr -> w_seq wr <> s) -> Inv st -> Inv (delete_file st s).
+Proof.
+  intros st s Hc [I1 [I2 [I3 I4]]]. split; [|split; [|split]].
+  - intros w H. apply safe_delete. apply I1; exact H.
+  - intros w H. destruct (I2 w H) as [S|[wr [C [f [L1 L2]]]]]; [left; apply safe_delete; exact S|].
+    right. exists wr. split; [exact C|]. exists f. split; [|exact L2].
+    cbn. apply In_st_remove. split; [exact L1|]. cbn. apply Hc; exact C.
+  - intros p Hp. cbn in Hp |- *. apply In_st_remove in Hp. apply I3; apply Hp.
+  - intros wr C F. cbn in C, F. destruct (I4 wr C F) as [f [ws [H1 H2]]].
+    exists f, ws. split; [|exact H2]. cbn. apply In_st_remove. split; [exact H1|]. cbn. apply Hc; exact C.
+Qed.
+
+Lemma truncate_files_inv : forall names st t cur,
+  cur = option_map w_seq (s_cur st) -> Inv st -> Inv (truncate_files st t cur names).
+Proof.
+  induction names as [|s names IH]; intros st t cur Hc I; cbn; [exact I|].
+  destruct (match cur with Some c => c =? s | None => false end) eqn:Sk; [apply IH; auto|].
+  assert (Ne : forall wr, s_cur st = Some wr -> w_seq wr <> s).
+  { intros wr C. rewrite C in Hc. cbn in Hc. subst cur. apply N.eqb_neq; exact Sk. }
+  destruct (deletable_at t (s_store st) s); [|apply IH; auto].
+  destruct (do_io st (CDel s)) as [[o st1]|] eqn:E1; [|apply Inv_set_halt; exact I].
+  io_same E1.
+  assert (I1 : Inv st1).
+  { apply (Inv_transfer st); auto; try congruence.
+    - intros p Hp. rewrite Est in Hp. rewrite Eseq. apply I; exact Hp.
+    - intros wr' C' F'. rewrite Ecur in C'. rewrite Efo in F'. rewrite Est. apply I; auto. }
+  assert (Ne1 : forall wr, s_cur st1 = Some wr -> w_seq wr <> s) by (intros wr C; apply Ne; congruence).
+  destruct o as [|[| |]].
+  - apply IH; [cbn; congruence|apply delete_file_inv; auto].
+  - exact I1.
+  - apply delete_file_inv; auto.
+  - apply delete_file_inv; auto.
+Qed.
+
+Lemma truncate_inv : forall st t, Inv st -> Inv (truncate st t).
+Proof.
+  intros st t I. unfold truncate. apply truncate_files_inv; [reflexivity|].
+  apply (Inv_transfer st); cbn; auto; apply I.
+Qed.
+
 Lemma step_inv : forall cfg st ev, c_variant cfg = Repaired -> Inv st -> Inv (step cfg st ev).
 Proof.
   intros cfg st ev V I. unfold step. destruct (s_halt st); [exact I|].
-  destruct ev; [apply handle_write_inv; auto|apply flush_inv; auto|apply shutdown_inv; auto].
+  destruct ev; [apply handle_write_inv; auto|apply flush_inv; auto|apply truncate_inv; auto|apply shutdown_inv; auto].
 Qed.
 
 Lemma max_seq_bound : forall st p, In p st -> fst p <= max_seq st.
@@ -568,10 +667,10 @@ Proof.
   destruct H as [<-|H]; [lia|]. specialize (IH p H). lia.
 Qed.
 
-Lemma init_from_inv : forall st0 acked0 err0 io,
-  (forall w, In w acked0 -> durable st0 w) -> Inv (init_from st0 acked0 err0 io).
+Lemma init_from_inv : forall st0 acked0 err0 rel0 io,
+  (forall w, In w acked0 -> In w rel0 \/ durable st0 w) -> Inv (init_from st0 acked0 err0 rel0 io).
 Proof.
-  intros st0 acked0 err0 io H. split; [|split; [|split]]; cbn.
+  intros st0 acked0 err0 rel0 io H. split; [|split; [|split]]; cbn.
   - exact H.
   - intros w [].
   - intros p Hp. apply max_seq_bound; exact Hp.
@@ -591,20 +690,17 @@ Qed.
 Lemma run_inv : forall cfg sched io, c_variant cfg = Repaired -> Inv (run cfg sched io).
 Proof. intros cfg sched io V. apply fold_step_inv; [exact V|apply init_inv]. Qed.
 
-(* The property: every write acked Ok is returned by recovery after a crash, for every
-   schedule, every outcome stream (hence every fault placement and every crash instant). *)
-Theorem acked_survive_repaired : forall cfg sched io,
+(* The property: every write acked Ok is returned by recovery after a crash - unless it sat
+   in a file that a TruncateUpTo deleted - for every schedule, every outcome stream (hence
+   every fault placement and every crash instant). *)
+Theorem acked_survive_unless_released : forall cfg sched io,
   c_variant cfg = Repaired ->
-  forall w, In w (acked_ok (run cfg sched io)) -> In w (recovered_after_crash (run cfg sched io)).
+  forall w, In w (acked_ok (run cfg sched io)) -> ~ In w (s_released (run cfg sched io)) ->
+  In w (recovered_after_crash (run cfg sched io)).
 Proof.
-  intros cfg sched io V w H. destruct (run_inv cfg sched io V) as [I1 _]. apply I1; exact H.
+  intros cfg sched io V w H NR. destruct (run_inv cfg sched io V) as [I1 _].
+  destruct (I1 w H) as [R|D]; [contradiction|exact D].
 Qed.
-
-Corollary acked_survive_prefix : forall cfg sched io n m,
-  c_variant cfg = Repaired ->
-  let a := run cfg (firstn n sched) (firstn m io) in
-  forall w, In w (acked_ok a) -> In w (recovered_after_crash a).
-Proof. intros cfg sched io n m V a. apply acked_survive_repaired; exact V. Qed.
 
 (* create never replaces an existing file (sequence numbers only grow) *)
 Lemma seq_bound_run : forall cfg sched io p,
@@ -647,7 +743,7 @@ Qed.
 Lemma restart_inv : forall keep st io, Inv st -> Inv (restart keep st io).
 Proof.
   intros keep st io [I1 _]. unfold restart. apply init_from_inv.
-  intros w H. apply durable_crash_keep. apply I1; exact H.
+  intros w H. destruct (I1 w H) as [R|D]; [left; exact R|right; apply durable_crash_keep; exact D].
 Qed.
 
 Lemma run_hist_inv : forall cfg hist st,
@@ -660,24 +756,26 @@ Qed.
 (* Whatever else of the unsynced tails the crash spares, acked writes are recovered. *)
 Theorem acked_survive_keep : forall cfg sched io keep,
   c_variant cfg = Repaired ->
-  forall w, In w (acked_ok (run cfg sched io)) ->
+  forall w, In w (acked_ok (run cfg sched io)) -> ~ In w (s_released (run cfg sched io)) ->
   In w (recover_all (crash_keep keep (s_store (run cfg sched io)))).
 Proof.
-  intros cfg sched io keep V w H. apply recover_crash_keep.
-  destruct (run_inv cfg sched io V) as [I1 _]. apply I1; exact H.
+  intros cfg sched io keep V w H NR. apply recover_crash_keep.
+  destruct (run_inv cfg sched io V) as [I1 _]. destruct (I1 w H) as [R|D]; [contradiction|exact D].
 Qed.
 
 (* Any number of crash / restart cycles: a write acked Ok by any incarnation is recovered
-   after the crash of the last one. *)
+   after the crash of the last one (unless a truncation released it). *)
 Theorem acked_survive_restarts : forall cfg hist keep,
   c_variant cfg = Repaired ->
   forall w, In w (acked_ok (run_incarnations cfg hist)) ->
+  ~ In w (s_released (run_incarnations cfg hist)) ->
   In w (recover_all (crash (s_store (run_incarnations cfg hist)))) /\
   In w (recover_all (crash_keep keep (s_store (run_incarnations cfg hist)))).
 Proof.
-  intros cfg hist keep V w H.
+  intros cfg hist keep V w H NR.
   destruct (run_hist_inv cfg hist (init []) V (init_inv [])) as [I1 _].
-  split; [apply I1; exact H|apply recover_crash_keep; apply I1; exact H].
+  destruct (I1 w H) as [R|D]; [contradiction|].
+  split; [exact D|apply recover_crash_keep; exact D].
 Qed.
 
 (* ---------------------------------------------------------------- the legacy rotator *)
@@ -872,10 +970,19 @@ Proof.
   destruct (s_halt (flush st)); [exact F|]. exact F.
 Qed.
 
+Lemma truncate_files_q : forall names st t cur, Quiet st -> Quiet (truncate_files st t cur names).
+Proof.
+  induction names as [|s names IH]; intros st t cur Q; cbn; [exact Q|].
+  destruct (match cur with Some c => c =? s | None => false end); [apply IH; exact Q|].
+  destruct (deletable_at t (s_store st) s); [|apply IH; exact Q].
+  unfold do_io. destruct (s_io st) as [|o l]; [exact Q|].
+  destruct o as [|[| |]]; try apply IH; exact Q.
+Qed.
+
 Lemma step_q : forall cfg st ev, Quiet st -> Quiet (step cfg st ev).
 Proof.
   intros cfg st ev [P L]. unfold step. destruct (s_halt st); [split; auto|].
-  destruct ev as [w size| |]; [|apply flush_q; split; auto|apply shutdown_q; split; auto].
+  destruct ev as [w size| |t|]; [|apply flush_q; split; auto|apply truncate_files_q; split; auto|apply shutdown_q; split; auto].
   unfold handle_write.
   set (st0 := if c_max_entries cfg <=? s_since st then set_over st else st).
   assert (Q0 : s_panic st0 = false /\ s_pending st0 = s_pending st /\ s_since st0 = s_since st).
@@ -908,3 +1015,183 @@ Theorem never_panics_run : forall cfg sched io,
   s_panic (run cfg sched io) = false /\
   N.of_nat (length (s_pending (run cfg sched io))) = s_since (run cfg sched io).
 Proof. intros cfg sched io. apply fold_step_q. split; reflexivity. Qed.
+
+
+(* ---------------------------------------------------------------- what a truncation may release *)
+
+Lemma rotate_open_rel : forall st st' r, rotate_open st = (st', r) -> s_released st' = s_released st.
+Proof.
+  intros st st' r H. unfold rotate_open, do_io in H. cbn in H. crush_pairs; reflexivity.
+Qed.
+
+Lemma rotate_rel : forall v st st' r, rotate v st = (st', r) -> s_released st' = s_released st.
+Proof.
+  intros v st st' r H. unfold rotate in H.
+  destruct v; [exact (rotate_open_rel _ _ _ H)|].
+  destruct (s_cur st) as [wr|]; [|exact (rotate_open_rel _ _ _ H)].
+  unfold do_io in H. destruct (s_io st) as [|o l]; [inversion H; reflexivity|].
+  destruct o; [|inversion H; reflexivity].
+  rewrite (rotate_open_rel _ _ _ H). reflexivity.
+Qed.
+
+Lemma rot_append_rel : forall cfg st w size st' r,
+  rot_append cfg st w size = (st', r) -> s_released st' = s_released st.
+Proof.
+  intros cfg st w size st' r H. unfold rot_append in H.
+  destruct (match s_cur st with Some wr => s_force st || (c_max_file_size cfg <=? w_size wr) | None => true end).
+  - destruct (rotate (c_variant cfg) st) as [st1 r1] eqn:E. pose proof (rotate_rel _ _ _ _ E) as R.
+    destruct r1; try (inversion H; subst; exact R).
+    destruct (s_cur st1); [|inversion H; subst; exact R].
+    unfold do_io in H. destruct (s_io st1) as [|o l]; [inversion H; subst; exact R|].
+    destruct o; [|destruct (c_variant cfg)]; inversion H; subst; exact R.
+  - destruct (s_cur st); [|inversion H; reflexivity].
+    unfold do_io in H. destruct (s_io st) as [|o l]; [inversion H; reflexivity|].
+    destruct o; [|destruct (c_variant cfg)]; inversion H; reflexivity.
+Qed.
+
+Lemma handle_write_rel : forall cfg st w size, s_released (handle_write cfg st w size) = s_released st.
+Proof.
+  intros cfg st w size. unfold handle_write.
+  set (st0 := if c_max_entries cfg <=? s_since st then set_over st else st).
+  assert (R0 : s_released st0 = s_released st) by (unfold st0; destruct (c_max_entries cfg <=? s_since st); reflexivity).
+  destruct (rot_append cfg st0 w size) as [st1 r] eqn:E. rewrite <- R0, <- (rot_append_rel _ _ _ _ _ _ E).
+  destruct r; reflexivity.
+Qed.
+
+Lemma fold_ack_rel : forall ok l st,
+  s_released (fold_left (fun a w => ack a w ok) l st) = s_released st.
+Proof. intros ok l; induction l as [|a l IH]; intros st; cbn; [reflexivity|]. rewrite IH. reflexivity. Qed.
+
+Lemma flush_rel : forall st, s_released (flush st) = s_released st.
+Proof.
+  intros st. unfold flush. destruct (s_since st =? 0); [reflexivity|].
+  unfold resolve_all. destruct (s_cur st) as [wr|].
+  - unfold do_io. destruct (s_io st) as [|o l]; [reflexivity|].
+    destruct o; cbn; rewrite fold_ack_rel; reflexivity.
+  - cbn. rewrite fold_ack_rel. reflexivity.
+Qed.
+
+Lemma shutdown_rel : forall st, s_released (shutdown st) = s_released st.
+Proof.
+  intros st. unfold shutdown. destruct (s_halt (flush st)); [apply flush_rel|]. cbn. apply flush_rel.
+Qed.
+
+Lemma deletable_le : forall t st s w, deletable_at t st s = true -> In w (entries_at st s) -> w <= t.
+Proof.
+  intros t st s w D H. apply In_entries_at in H. destruct H as [f [H1 H2]].
+  apply In_files_at in H1. unfold deletable_at in D.
+  destruct (files_at st s) as [|f0 fs] eqn:E; [destruct H1|].
+  rewrite forallb_forall in D. specialize (D f H1).
+  unfold deletable, file_entries in D. unfold read_file in H2.
+  destruct (f_items f) as [|[| |] r]; try discriminate D.
+  rewrite forallb_forall in D. apply N.leb_le. apply D; exact H2.
+Qed.
+
+Lemma truncate_files_rel : forall names st t cur w,
+  In w (s_released (truncate_files st t cur names)) -> In w (s_released st) \/ w <= t.
+Proof.
+  induction names as [|s names IH]; intros st t cur w H; cbn in H; [left; exact H|].
+  destruct (match cur with Some c => c =? s | None => false end); [apply IH in H; exact H|].
+  destruct (deletable_at t (s_store st) s) eqn:D; [|apply IH in H; exact H].
+  destruct (do_io st (CDel s)) as [[o st1]|] eqn:E1; [|left; exact H].
+  io_same E1.
+  assert (X : forall v, In v (s_released (delete_file st1 s)) -> In v (s_released st) \/ v <= t).
+  { intros v Hv. cbn in Hv. apply in_app_or in Hv. destruct Hv as [Hv|Hv].
+    - right. rewrite Est in Hv. apply (deletable_le t (s_store st) s); auto.
+    - left. rewrite <- Erel. exact Hv. }
+  destruct o as [|[| |]].
+  - apply IH in H. destruct H as [H|H]; [apply X; exact H|right; exact H].
+  - left. rewrite <- Erel. exact H.
+  - apply X; exact H.
+  - apply X; exact H.
+Qed.
+
+Lemma step_rel : forall cfg st ev w, In w (s_released (step cfg st ev)) ->
+  In w (s_released st) \/ exists t, ev = STruncate t /\ w <= t.
+Proof.
+  intros cfg st ev w H. unfold step in H. destruct (s_halt st); [left; exact H|].
+  destruct ev as [x size| |t|].
+  - rewrite handle_write_rel in H. left; exact H.
+  - rewrite flush_rel in H. left; exact H.
+  - unfold truncate in H. apply truncate_files_rel in H. destruct H as [H|H]; [left; exact H|].
+    right. exists t. auto.
+  - rewrite shutdown_rel in H. left; exact H.
+Qed.
+
+Lemma fold_step_rel : forall cfg sched st w, In w (s_released (fold_left (step cfg) sched st)) ->
+  In w (s_released st) \/ exists t, In (STruncate t) sched /\ w <= t.
+Proof.
+  intros cfg sched; induction sched as [|ev sched IH]; intros st w H; cbn in H; [left; exact H|].
+  apply IH in H. destruct H as [H|[t [H1 H2]]].
+  - apply step_rel in H. destruct H as [H|[t [-> H2]]]; [left; exact H|].
+    right. exists t. split; [left; reflexivity|exact H2].
+  - right. exists t. split; [right; exact H1|exact H2].
+Qed.
+
+(* Only entries stamped at or below an applied watermark are ever released. *)
+Theorem released_below_watermark : forall cfg sched io w,
+  In w (s_released (run cfg sched io)) -> exists t, In (STruncate t) sched /\ w <= t.
+Proof.
+  intros cfg sched io w H. apply fold_step_rel in H. destruct H as [[]|H]. exact H.
+Qed.
+
+Theorem acked_survive_repaired : forall cfg sched io,
+  c_variant cfg = Repaired ->
+  forall w, In w (acked_ok (run cfg sched io)) ->
+  (forall t, In (STruncate t) sched -> t < w) ->
+  In w (recovered_after_crash (run cfg sched io)).
+Proof.
+  intros cfg sched io V w H G. apply acked_survive_unless_released; auto.
+  intros R. apply released_below_watermark in R. destruct R as [t [R1 R2]].
+  specialize (G t R1). lia.
+Qed.
+
+Corollary acked_survive_prefix : forall cfg sched io n m,
+  c_variant cfg = Repaired ->
+  let a := run cfg (firstn n sched) (firstn m io) in
+  forall w, In w (acked_ok a) -> (forall t, In (STruncate t) (firstn n sched) -> t < w) ->
+  In w (recovered_after_crash a).
+Proof. intros cfg sched io n m V a. apply acked_survive_repaired; exact V. Qed.
+
+Corollary acked_survive_no_truncation : forall cfg sched io,
+  c_variant cfg = Repaired -> (forall t, ~ In (STruncate t) sched) ->
+  forall w, In w (acked_ok (run cfg sched io)) -> In w (recovered_after_crash (run cfg sched io)).
+Proof.
+  intros cfg sched io V NT w H. apply acked_survive_repaired; auto.
+  intros t Ht. destruct (NT t Ht).
+Qed.
+
+Lemma run_hist_rel : forall cfg hist st w, In w (s_released (run_hist cfg st hist)) ->
+  In w (s_released st) \/ exists keep sched io t, In (keep, sched, io) hist /\ In (STruncate t) sched /\ w <= t.
+Proof.
+  intros cfg hist; induction hist as [|[[keep sched] io] hist IH]; intros st w H; cbn in H; [left; exact H|].
+  apply IH in H. destruct H as [H|[k [sc [i [t [H1 [H2 H3]]]]]]].
+  - apply fold_step_rel in H. destruct H as [H|[t [H1 H2]]]; [left; exact H|].
+    right. exists keep, sched, io, t. split; [left; reflexivity|auto].
+  - right. exists k, sc, i, t. split; [right; exact H1|auto].
+Qed.
+
+Theorem acked_survive_restarts_watermark : forall cfg hist keep,
+  c_variant cfg = Repaired ->
+  forall w, In w (acked_ok (run_incarnations cfg hist)) ->
+  (forall k sched io t, In (k, sched, io) hist -> In (STruncate t) sched -> t < w) ->
+  In w (recover_all (crash (s_store (run_incarnations cfg hist)))) /\
+  In w (recover_all (crash_keep keep (s_store (run_incarnations cfg hist)))).
+Proof.
+  intros cfg hist keep V w H G. apply acked_survive_restarts; auto.
+  intros R. apply run_hist_rel in R. destruct R as [[]|[k [sc [i [t [H1 [H2 H3]]]]]]].
+  specialize (G k sc i t H1 H2). lia.
+Qed.
+
+(* Out-of-order stamps in a closed file: file 1 holds 5, 1, 3.  TruncateUpTo 3 must keep it
+   (its newest stamp is 5, not the last entry's 3); TruncateUpTo 5 deletes it. *)
+Definition tr_sched (t : N) : list sched_item :=
+  [SWrite 5 85; SWrite 1 85; SWrite 3 85; SFlush; SWrite 9 85; SFlush; STruncate t].
+Lemma example_truncation :
+  acked_ok (run repaired_cfg (tr_sched 3) (repeat OOk 20)) = [9; 3; 1; 5] /\
+  s_released (run repaired_cfg (tr_sched 3) (repeat OOk 20)) = [] /\
+  recovered_after_crash (run repaired_cfg (tr_sched 3) (repeat OOk 20)) = [5; 1; 3; 9] /\
+  s_released (run repaired_cfg (tr_sched 5) (repeat OOk 20)) = [5; 1; 3] /\
+  recovered_after_crash (run repaired_cfg (tr_sched 5) (repeat OOk 20)) = [9] /\
+  s_halt (run repaired_cfg (tr_sched 5) (repeat OOk 20)) = false.
+Proof. repeat split; vm_compute; reflexivity. Qed.
